@@ -137,6 +137,21 @@ def _mentions_var(u):
     return False
 
 
+def canon(t, depth=0):
+    """commutative connectives with their arguments in textual order: z3's simplifier orders them by term identity, which differs
+    between two evaluations of the same text; folds are shared by the text of their normal form"""
+    if depth > 60 or not z3.is_app(t) or t.num_args() == 0:
+        return t
+    kids = [canon(c, depth + 1) for c in t.children()]
+    if z3.is_or(t) or z3.is_and(t):
+        kids = sorted(kids, key=lambda c: c.sexpr())
+        return (z3.Or if z3.is_or(t) else z3.And)(*kids)
+    try:
+        return t.decl()(*kids)
+    except z3.Z3Exception:
+        return t
+
+
 class FoldRegistry:
     def __init__(self):
         self.by_key = {}
@@ -148,7 +163,7 @@ class FoldRegistry:
         step: z3 term mentioning idx (z3 Int const).  Returns (decl, arg_terms) such that the
         fold value for the first n elements is decl(*arg_terms, n)."""
         idx_ids = {idx.get_id()}
-        step = ssimp(step)
+        step = canon(ssimp(step))
         subs = maximal_index_free(step, idx_ids)
         params = []
         pairs = []
